@@ -66,12 +66,13 @@ def judge(line, out):
     future = kind == 1
     age = Fraction(secs * NS + nanos, NS)
     eight = 8 * cfloat.decode(w)
-    # a negative update interval is meaningless (chronyd never reports one): the threshold then
-    # saturates to 0 s and only an age of exactly 0 counts as fresh; the age clause is judged for
-    # non-negative intervals only
-    if st == 1 and not (leap <= 2 and not future and (age <= eight or eight < 0)):
+    # a negative update interval (chronyd can report one after a backwards step): eight intervals are then
+    # negative and every reference time in the past is older than that; the one reading the statement
+    # leaves open - an age of exactly zero - is not judged
+    lim = max(eight, 0)
+    if st == 1 and not (leap <= 2 and not future and age <= lim):
         bad.append("Synchronized although leap=%d future=%s age=%s s vs 8*interval=%s s" % (leap, future, float(age), float(eight)))
-    if leap <= 2 and not future and age > eight and eight >= 0 and st != 2:
+    if leap <= 2 and not future and age > lim and st != 2:
         bad.append("synchronised leap status with a reference time older than 8 intervals is not FreeRunning")
     if leap == 3 and not future and st != 2:
         bad.append("leap status 3 is not FreeRunning")
